@@ -14,6 +14,8 @@ def jobs(tier):
         *split(job(M, "c08", "codes/n2/DT", dict(n=2, mode="codes", symbols=["C", "D", "T"]), max_seconds=ms), "el0", 3),
         *split(job(M, "c08", "stale-codes+iso/n2", dict(n=2, mode="stale", with_iso=True, strings=False), max_seconds=ms), "stale_code", 7),
         job(M, "c08", "lines/n2", dict(n=2, mode="lines"), max_seconds=ms),
+        job(M, "c08", "lines+iso/n2", dict(n=2, mode="lines", with_iso=True, chiral=False), max_seconds=ms),
+        job(M, "c08_plus", "plus-signed-values", {}, max_seconds=ms),
         *split(job(M, "c08", "lines/n2/unrelated", dict(n=2, mode="lines", unrelated=True, strings=False), max_seconds=ms), "unrelated", 9),
         *split(job(M, "c08", "stale-codes/n2", dict(n=2, mode="stale"), max_seconds=ms), "stale_code", 7),
         job(M, "c08", "iso/n2/DT", dict(n=2, mode="iso", symbols=["C", "H", "D", "T"]), max_seconds=ms),
@@ -45,7 +47,7 @@ def main(tier):
         bounds={"atoms": "2-3 atoms (thorough: 9 atoms so that M  CHG/RAD/ISO need two or three lines; 4 atoms for bonds)",
                 "values": "M  CHG values in [-15, 15], M  RAD in [0, 3] (explicit 0 included), M  ISO >= 1, bond types 1..10 (V3000) / 1..8 (V2000), the types the specification defines: symbolic, read through fixed-width fields",
                 "encodings": "atom-block charge code 0..7 on every atom; property lines only; property lines plus a stale atom-block code (must be ignored), also with an M  ISO line in every position relative to the CHG/RAD lines; charge codes on D/T atoms; D/T symbols with M  ISO on other atoms, with and without an M  CHG line",
-                "layout": "every grouping of the entries into <= 3 lines of <= 8, all 6 orders of the CHG/RAD/ISO groups, one unrelated line (M  STY, M  ALS, A, V, G, S  SKP, M  SAL, M  RGP) at every position, one atom-list line counted in lll"},
+                "header": "chiral flag 0 or 1 in the counts line; explicitly plus-signed values in the value fields (concrete)", "layout": "every grouping of the entries into <= 3 lines of <= 8, all 6 orders of the CHG/RAD/ISO groups, one unrelated line (M  STY, M  ALS, A, V, G, S  SKP, M  SAL, M  RGP) at every position, one atom-list line counted in lll"},
         assumptions=["renderings by REF-V2000 / REF-V3000 (/verif/ref/molfile_ref.py), independent of tucan",
                      "charges, radicals, masses are compared as attrs.get(key, 0) (a stored zero is not a difference); the TUCAN strings must be equal",
                      "the V3000 rendering omits default values"],
